@@ -1891,7 +1891,10 @@ class FortranGeneric(object):
     def parse_generic(self, namespace):
         """Parse argument list (ex. int arg1, float *arg2) and set list of Declarations."""
         parser = declast.Parser(self.generic, namespace)
+        if parser.token.typ != "LPAREN":
+            parser.error_msg("Expected '(' at the start of a fortran_generic decl")
         self.decls = parser.parameter_list()
+        parser.mustbe("EOF")
 
     def __repr__(self):
         return self.generic
